@@ -1,6 +1,7 @@
 """C13: format conversions and reader entry points agree."""
 from lib import *
 import json as _json
+import os
 
 PROP = "C13"
 LEVEL = "proof"
@@ -23,6 +24,9 @@ RULE = ("lists of 1..5 random well-formed trees (2..12 tips, rooted / unrooted /
         "line); numbers: dyadic, or (16% of the lists) full-precision binary64 values -- random 52-bit mantissas over 40 binades, "
         "one ulp beside short decimals, results of float arithmetic (0.1*3, 1/3, 0.1+0.2) -- on every chain, "
         "compared exactly; every list is "
+        "the command line (extra): `gotree reformat newick|nexus|nexus --translate|phyloxml -i IN [-o OUT]` on 6 lists (60 thorough) with "
+        "OUT fresh / an existing longer file / an existing shorter file / stdout (byte-identical), input from file and stdin, output "
+        "read back with `reformat newick -f <fmt>` against the input; every list is "
         "also written from the trees as BUILT through the API (parent slots at random positions, as after a reroot) to PhyloXML "
         "and Nexus, and to Nexus from records whose Id was never set (all TREE statements named tree0); plus lists outside the quantifier (Nexus "
         "keywords in any case as labels, e.g. end, TREE, taxlabelſ) for the correspondence only. A case is non-trivial "
@@ -261,3 +265,94 @@ def gen(rng, tier):
     for j, bc in enumerate(bigs):
         out.insert(min(len(out), j * (step + 1)), bc)
     return out
+
+
+# ---------------------------------------------------------------- the command line: gotree reformat <fmt> -i IN -o OUT
+def extra(tier, seed, st):
+    """`gotree reformat newick|nexus|phyloxml` (cmd/reformat*.go) on files: the output written to (a) a fresh file, (b) an
+    existing LONGER file left by a previous conversion, (c) an existing shorter file, must be byte-identical to (d) what is
+    written to stdout; input from a file and from stdin must give the same output; and reading the output back
+    (`gotree reformat newick -f <fmt>`) must give the Newick text of the input trees (names, lengths, supports, tree count,
+    order)."""
+    import random, shutil, cli
+    info = {"evaluations": 0, "distinct_nontrivial": 0, "cli_lists": 0}
+    ok, err = cli.build_gotree()
+    if not ok:
+        return [("build", "gotree no longer builds: " + err[-500:], None)], info
+    rng = random.Random(seed + 13)
+    fails = []
+    d = cli.scratch("c13-")
+    def nwfile(trees):
+        return ("".join(newick(t) + "\n" for t in trees)).encode()
+    def mk_list(k, ntips):
+        names = names_for(rng, ntips, False)
+        return [make_tree(rng, names, "dyadic") for _ in range(k)]
+    try:
+        nlists = {"quick": 6, "thorough": 60}.get(tier, 6)
+        for li in range(nlists):
+            k = rng.choice([1, 2, 3, 4])
+            ntips = rng.randint(3, 10)
+            trees = mk_list(k, ntips)
+            longer = mk_list(k + rng.choice([2, 3, 5]), ntips + rng.randint(2, 8))
+            shorter = mk_list(1, 2)
+            sub = os.path.join(d, "l%d" % li)
+            os.makedirs(sub)
+            for name, ts in (("in.nw", trees), ("long.nw", longer), ("short.nw", shorter)):
+                open(os.path.join(sub, name), "wb").write(nwfile(ts))
+            # the reference: the input normalised by the tool itself
+            rc0, ref, se0 = cli.run(["reformat", "newick", "-i", "in.nw"], sub)
+            info["evaluations"] += 1
+            if rc0 != 0:
+                fails.append(("cli", "`gotree reformat newick -i in.nw` fails on a well-formed file: " + se0.decode("utf-8", "replace")[-200:],
+                              {"input": nwfile(trees).decode()}))
+                continue
+            for fmt, args in (("newick", []), ("nexus", []), ("nexus", ["--translate"]), ("phyloxml", [])):
+                label = "reformat %s%s" % (fmt, (" " + " ".join(args)) if args else "")
+                base = ["reformat", fmt] + args
+                rc, so, se = cli.run(base + ["-i", "in.nw"], sub)                      # (d) stdout
+                info["evaluations"] += 1
+                if rc != 0:
+                    fails.append(("cli", "`gotree %s -i in.nw` fails: %s" % (label, se.decode("utf-8", "replace")[-200:]), {"input": nwfile(trees).decode()}))
+                    continue
+                def body(kind, got):
+                    return {"command": "gotree " + label, "out": kind, "input": nwfile(trees).decode(), "expected": so.decode("utf-8", "replace")[:3000],
+                            "got": got.decode("utf-8", "replace")[:3000]}
+                # input from stdin
+                rc, so2, se = cli.run(base, sub, stdin=nwfile(trees))
+                info["evaluations"] += 1
+                if rc != 0 or so2 != so:
+                    fails.append(("cli:stdin", "`gotree %s` reading stdin gives another output than with -i FILE" % label, body("stdin", so2)))
+                for kind, pre in (("fresh", None), ("existing-longer", "long.nw"), ("existing-shorter", "short.nw")):
+                    out = "out-%s-%s%s.txt" % (kind, fmt, "-tr" if args else "")
+                    if pre is not None:
+                        rcp, _, sep = cli.run(base + ["-i", pre, "-o", out], sub)
+                        info["evaluations"] += 1
+                        if rcp != 0:
+                            continue
+                    rc, so3, se = cli.run(base + ["-i", "in.nw", "-o", out], sub)
+                    info["evaluations"] += 1
+                    got = open(os.path.join(sub, out), "rb").read() if os.path.exists(os.path.join(sub, out)) else b""
+                    if rc != 0 or got != so:
+                        fails.append(("cli:out:" + kind,
+                                      "`gotree %s -i in.nw -o OUT` with OUT %s: the file differs from what the same command writes to stdout "
+                                      "(%d bytes instead of %d)" % (label, kind.replace("-", " "), len(got), len(so)), body(kind, got)))
+                        continue
+                    # read the file back
+                    rc, back, se = cli.run(["reformat", "newick", "-f", fmt, "-i", out], sub)
+                    info["evaluations"] += 1
+                    if rc != 0 or back != ref:
+                        fails.append(("cli:back:" + kind,
+                                      "reading back the output of `gotree %s -o OUT` (OUT %s) does not give the input trees: %s"
+                                      % (label, kind, (se.decode("utf-8", "replace")[-150:] if rc != 0 else back.decode("utf-8", "replace")[:150])),
+                                      body(kind, back)))
+                    else:
+                        info["distinct_nontrivial"] += 1
+            info["cli_lists"] += 1
+    finally:
+        shutil.rmtree(d, ignore_errors=True)
+    # one failure per kind is enough for the report
+    seen, uniq = set(), []
+    for f in fails:
+        if f[0] not in seen:
+            seen.add(f[0]); uniq.append(f)
+    return uniq, info
